@@ -50,8 +50,19 @@ func noises() []noiseFn {
 
 // WithNoise returns a copy of the edit with 1–3 base variations applied to both
 // documents and 1–3 non-breaking changes applied to the new document only.
-func WithNoise(e Edit, rng *rand.Rand) (Edit, []string) {
-	ns := noises()
+func WithNoise(e Edit, rng *rand.Rand, exclude ...string) (Edit, []string) {
+	var ns []noiseFn
+	for _, n := range noises() {
+		skip := false
+		for _, x := range exclude {
+			if n.name == x {
+				skip = true
+			}
+		}
+		if !skip {
+			ns = append(ns, n)
+		}
+	}
 	out := e
 	out.Old, out.New = jx.CloneJ(e.Old), jx.CloneJ(e.New)
 	var names []string
@@ -73,4 +84,58 @@ func WithNoise(e Edit, rng *rand.Rand) (Edit, []string) {
 		}()
 	}
 	return out, names
+}
+
+// HasCircularRef reports whether the definitions of a document reference each
+// other in a cycle.
+func HasCircularRef(doc J) bool {
+	defs, _ := doc["definitions"].(J)
+	graph := map[string][]string{}
+	var collect func(v any, out *[]string)
+	collect = func(v any, out *[]string) {
+		switch t := v.(type) {
+		case map[string]any:
+			if r, ok := t["$ref"].(string); ok {
+				if i := len("#/definitions/"); len(r) > i && r[:i] == "#/definitions/" {
+					*out = append(*out, r[i:])
+				}
+			}
+			for _, x := range t {
+				collect(x, out)
+			}
+		case []any:
+			for _, x := range t {
+				collect(x, out)
+			}
+		}
+	}
+	for name, d := range defs {
+		var refs []string
+		collect(d, &refs)
+		graph[name] = refs
+	}
+	state := map[string]int{}
+	var visit func(n string) bool
+	visit = func(n string) bool {
+		switch state[n] {
+		case 1:
+			return true
+		case 2:
+			return false
+		}
+		state[n] = 1
+		for _, m := range graph[n] {
+			if visit(m) {
+				return true
+			}
+		}
+		state[n] = 2
+		return false
+	}
+	for name := range graph {
+		if visit(name) {
+			return true
+		}
+	}
+	return false
 }
